@@ -17,6 +17,7 @@ Not decided: order independence of ncon with swaps (termination/completeness of 
 from __future__ import annotations
 
 import ast
+import copy
 
 from ..core import astutil as A
 from ..core.cfg import CFG
@@ -264,6 +265,84 @@ def run_W5(chk):
                 "(swap_gate(ts[d_ten], axes=d_legs, charge=ts[jumped].n) stored back into ts[d_ten])")
 
 
+def _norm_lambda(e):
+    """text of a callable argument with the lambda parameter renamed to a fixed name"""
+    if isinstance(e, ast.Lambda) and len(e.args.args) == 1:
+        old = e.args.args[0].arg
+        e = copy.deepcopy(e)
+
+        class R(ast.NodeTransformer):
+            def visit_Name(self, n):
+                return ast.copy_location(ast.Name(id="_x", ctx=n.ctx), n) if n.id == old else n
+
+            def visit_arg(self, n):
+                return ast.copy_location(ast.arg(arg="_x"), n) if n.arg == old else n
+        return A.text(R().visit(e))
+    return A.text(e)
+
+
+def run_W6(chk):
+    """Sibling agreement of the renumbering tables of _meta_ncon.  After every executed command the axes of the touched tensors are
+    renumbered; *every* table that stores (tensor, axis) coordinates -- the open edges and the pending swaps -- has to be renumbered
+    by the same map, or a pending swap is later applied to another leg than the one it was recorded for (a wrong sign for odd charges
+    there, nothing for even ones)."""
+    prog = chk.prog
+    mn = prog.func(EIN, "_meta_ncon")
+    shifters = {f.name: f for f in prog.all_funcs({EIN}) if f.name.startswith("_shift_") and f.cls is None}
+    chk.require(len(shifters) >= 2, "_einsum: fewer than two _shift_*_ renumbering functions found (vanished anchor)")
+    inl = A.Inliner(mn.node)
+    par = A.enclosing_map(mn.node)
+    byblock = {}
+    for c in A.walk_local(mn.node, include_self=False):
+        if isinstance(c, ast.Call) and A.call_name(c) in shifters:
+            st = A.stmt_of(c, par)
+            blk = A.block_of(st, par)
+            byblock.setdefault(id(blk), (blk, []))[1].append((st, c))
+    chk.require(byblock, "_meta_ncon: no call of a renumbering function found (vanished anchor)")
+    for blk, calls in byblock.values():
+        sig = {}
+        free = set()
+        for st, c in calls:
+            f = shifters[A.call_name(c)]
+            names = [a.arg for a in f.node.args.args]
+            bound = dict(zip(names, c.args))
+            bound.update({k.arg: k.value for k in c.keywords if k.arg})
+            rest = tuple(_norm_lambda(inl.expand(bound[n])) if n in bound else "<missing>" for n in names[1:])
+            sig.setdefault(f.name, []).append(rest)
+            for n in names[1:]:
+                if n in bound:
+                    e = inl.expand(bound[n])
+                    lam = {a.arg for l_ in ast.walk(e) if isinstance(l_, ast.Lambda) for a in l_.args.args}
+                    free |= {x.id for x in ast.walk(e) if isinstance(x, ast.Name)} - lam
+        ref_name = sorted(sig)[0]
+        ref = sorted(sig[ref_name])
+        site = calls[0][0]
+        for name in sorted(shifters):
+            got = sorted(sig.get(name, []))
+            ok = got == ref
+            chk.verdict("W6", (mn, site), f"block at line {site.lineno}: {name} renumbers by the same maps as {ref_name} ({len(ref)} call(s))",
+                        True if ok else False,
+                        f"_meta_ncon: after a command the tables of (tensor, axis) coordinates are renumbered by different maps: {ref_name} "
+                        f"{ref} vs {name} {got}; a pending swap (or an open edge) then refers to another leg of the result than the one it was "
+                        f"recorded for -- the fermionic sign is applied on the wrong leg, visible only when the charges there are odd")
+        # nothing the maps read is written between the twin calls
+        idx = [blk.index(st) for st, _ in calls if st in blk]
+        between = [s_ for s_ in blk[min(idx):max(idx) + 1] if s_ not in [st for st, _ in calls]] if idx else []
+        written = set()
+        for s_ in between:
+            for n in ast.walk(s_):
+                if isinstance(n, ast.Name) and isinstance(n.ctx, (ast.Store, ast.Del)):
+                    written.add(n.id)
+                if isinstance(n, (ast.Subscript, ast.Attribute)) and isinstance(n.ctx, (ast.Store, ast.Del)) and isinstance(n.value, ast.Name):
+                    written.add(n.value.id)
+                if isinstance(n, ast.Call) and isinstance(n.func, ast.Attribute) and isinstance(n.func.value, ast.Name):
+                    written.add(n.func.value.id)
+        clash = sorted(written & free)
+        chk.verdict("W6", (mn, site), f"block at line {site.lineno}: nothing read by the renumbering maps changes between the twin calls",
+                    False if clash else True,
+                    f"_meta_ncon: {clash} is modified between the renumbering of one table and of its twin; the lazily evaluated maps then differ")
+
+
 def _negates_listed_slices_of_a_copy(nb):
     """backend negate_blocks(data, slices): copy `data`, multiply exactly the listed slices by -1, return the copy"""
     fn = nb.node
@@ -339,6 +418,8 @@ def run(chk):
     chk.rule("W5", "ncon/einsum jump moves: every jump emits the parity correction, toggles the other legs, is followed by "
              "collection of same-tensor swaps; every emitted command kind is executed", floor=10)
     run_W5(chk)
+    chk.rule("W6", "ncon/einsum: the tables of open edges and of pending swaps are renumbered by the same maps after every command", floor=8)
+    run_W6(chk)
     sg = prog.func(CON, "swap_gate")
     msg = prog.func(CON, "_meta_swap_gate")
     msgc = prog.func(CON, "_meta_swap_gate_charge")
@@ -537,11 +618,14 @@ MUTANTS = [
     ("jump skips parity command", "yastn/tensor/_einsum.py", "        d_ten, d_leg = partner[0]\n        commands.append(('parity_sign', tid, d_ten, (d_leg,)))", "        d_ten, d_leg = partner[0]\n        if len(skip) < nlegs[tid]:\n            commands.append(('parity_sign', tid, d_ten, (d_leg,)))", "W5"),
     ("parity from partner tensor", "yastn/tensor/_einsum.py", "            charge = ts[jumped_ten].n", "            charge = ts[d_ten].n", "W5"),
     ("string includes own charge", "yastn/tensor/_contractions.py", "sym.add_charges(*n_pattern[n+1:])", "sym.add_charges(*n_pattern[n:])", "W4"),
+    ("swaps renumbered without the second group of traced axes", "yastn/tensor/_einsum.py", "                _shift_swaps_(swaps, ten1, ten1, dax=lambda x: -sum(ax < x for ax in axes12))", "                _shift_swaps_(swaps, ten1, ten1, dax=lambda x: -sum(ax < x for ax in axes1))", "W6"),
+    ("swaps of the second operand not offset", "yastn/tensor/_einsum.py", "        _shift_swaps_(swaps, ten2, ten_out, dax=lambda x: nlegs[ten1])", "        _shift_swaps_(swaps, ten2, ten_out, dax=lambda x: 0)", "W6"),
 ]
 BENIGN = [
     ("rename parity accumulator", "yastn/tensor/_contractions.py", "        tp += np.sum(t1[:, fss] * t2[:, fss], axis=1, dtype=np.int64)\n    tp = tp % 2\n    return _slices_to_negate(tp, slices)", "        tp += np.sum(t1[:, fss] * t2[:, fss], axis=1, dtype=np.int64)\n    parity = tp % 2\n    return _slices_to_negate(parity, slices)"),
     ("negate by assignment", "yastn/backend/backend_np.py", "        newdata[slice(*slc)] *= -1\n    return newdata", "        newdata[slice(*slc)] = -newdata[slice(*slc)]\n    return newdata"),
     ("rename flag vector", "yastn/tensor/_contractions.py", "    fss = (True,) * nsym if a.config.fermionic is True else a.config.fermionic\n", "    fss = nsym * (True,) if a.config.fermionic is True else a.config.fermionic\n"),
     ("sign with 2 on the right", "yastn/tensor/_auxiliary.py", "        return 1 - 2 * (np.sum(t0 * t1, dtype=np.int64).item() % 2)", "        return 1 - (np.sum(t0 * t1, dtype=np.int64).item() % 2) * 2"),
+    ("renumbering map bound once and shared", "yastn/tensor/_einsum.py", "                _shift_edges_(edges, ten1, ten1, dax=lambda x: -sum(ax < x for ax in axes12))\n                _shift_swaps_(swaps, ten1, ten1, dax=lambda x: -sum(ax < x for ax in axes12))", "                drop12 = lambda y: -sum(ax < y for ax in axes12)\n                _shift_edges_(edges, ten1, ten1, dax=drop12)\n                _shift_swaps_(swaps, ten1, ten1, drop12)"),
     ("helper for fss irrelevant rename", "yastn/tensor/_contractions.py", "    iaxes = iter(axes)\n    tp = np.zeros(lt, dtype=np.int64)", "    tp = np.zeros(lt, dtype=np.int64)\n    iaxes = iter(axes)"),
 ]
